@@ -21,7 +21,9 @@ _tl = _rt.local()
 NEW, RUN, BLOCK, DONE = 0, 1, 2, 3
 _STATE = {NEW: "NEW", RUN: "RUN", BLOCK: "BLOCK", DONE: "DONE"}
 
-WATCHDOG_S = 600.0  # real seconds a single execution may take before it is declared uncontrolled
+WATCHDOG_S = 600.0
+UNWIND_STEP_S = 10.0
+UNWIND_TRIES = 30     # 5 minutes of real time per carrier thread  # real seconds a single execution may take before it is declared uncontrolled
 
 
 class Killed(BaseException):
@@ -475,11 +477,16 @@ class Exec:
             if t.real is None:
                 continue
             if t.real.is_alive():
-                try:
-                    t.baton.release()
-                except RuntimeError:
-                    pass
-                t.real.join(10.0)
+                # under heavy host load (a niced run next to two others) a carrier needed more than 10 s of real time to be
+                # scheduled once: wait patiently, nudging it again, before calling it stuck
+                for _ in range(UNWIND_TRIES):
+                    try:
+                        t.baton.release()
+                    except RuntimeError:
+                        pass
+                    t.real.join(UNWIND_STEP_S)
+                    if not t.real.is_alive():
+                        break
                 if t.real.is_alive():
                     stuck.append(t.name)
         if stuck and self.internal_error is None:
